@@ -394,6 +394,22 @@ struct H : Handler {
             }
             return "LOADED";
         }
+        if (name == "truncs") {
+            // truncs <hex bytes>: load every proper prefix; one letter per length (X exception, L loaded)
+            std::string bytes = unhex(c.next());
+            std::string out;
+            for (std::size_t k = 0; k < bytes.size(); ++k) {
+                LimitBuf lb(bytes, k);
+                std::istream is(&lb);
+                try {
+                    field_t f(is);
+                    out.push_back('L');
+                } catch (const std::exception &) {
+                    out.push_back('X');
+                }
+            }
+            return "T " + (out.empty() ? std::string("-") : out);
+        }
         if (name == "copy") {   // copy construct: dst src
             std::size_t d = u64(c.next());
             field_t & f = get(c);
